@@ -120,6 +120,9 @@ def build(case):
     # the README asks for DIM before use; a DIM placed late (e.g. in an initialisation subroutine at the end of the
     # listing) is still one declaration with the source's bounds -- only the "before first use" clause is waived then
     dim_late = bool(dims) and rng.random() < 0.12
+    if rng.random() < 0.15:
+        # CLEAR n (string space of the CoCo, below and above the requested sizes): no bearing on any declaration
+        prog.append((ln - 5, [("raw", ["CLEAR", str(rng.choice([10, 50, 100, 200, 1000]))])]))
     if dims and not dim_late:
         prog.append((ln, [("dim", dims)]))
         ln += 10
